@@ -1,8 +1,10 @@
 pub mod checks;
+pub mod checks2;
 pub mod driver;
 pub mod eng;
 pub mod gen;
 pub mod model;
+pub mod mon_more;
 pub mod mon_rules;
 pub mod mon_state;
 pub mod record;
@@ -10,6 +12,8 @@ pub mod replay;
 pub mod rng;
 pub mod runner;
 pub mod sink;
+pub mod strings;
+pub mod sym;
 pub mod workloads;
 
 use runner::Cfg;
@@ -33,6 +37,15 @@ pub fn dispatch(cfg: &Cfg, _extra: &[String]) -> i32 {
         "C12" => checks::c12(cfg),
         "C13" => checks::c13(cfg),
         "C14" => checks::c14(cfg),
+        "C04" => checks2::c04(cfg),
+        "C09" => checks2::c09(cfg),
+        "C11" => checks2::c11(cfg),
+        "C15" => checks2::c15(cfg),
+        "C15-strings" => checks2::c15_strings_child(cfg),
+        "C16" => checks2::c16(cfg),
+        "C16-strings" => checks2::c16_strings_child(cfg),
+        "C17" => checks2::c17(cfg),
+        "C19" => checks2::c19(cfg),
         _ => {
             eprintln!("unknown property id {}", cfg.id);
             3
@@ -54,6 +67,9 @@ pub fn monitor_for(id: &str) -> Option<Box<dyn driver::Monitor>> {
         "C12" => Box::new(mon_state::C12::default()),
         "C13" => Box::new(mon_state::C13::default()),
         "C14" => Box::new(mon_state::C14::default()),
+        "C09" => Box::new(mon_more::C09::default()),
+        "C15" => Box::new(mon_more::C15::default()),
+        "C19" => Box::new(mon_more::C19::default()),
         _ => return None,
     })
 }
